@@ -241,7 +241,14 @@ def check(ctx):
               T.UAVariant(T.UADouble(0.0)), T.UAVariant(T.UADouble(-0.0)),
               # the interpreter-wide NaN object and other NaN objects (a table keyed by a NaN finds it by identity only)
               T.UADouble(math.nan), T.UAFloat(math.nan), T.UADouble(float("nan")), T.UAVariant(T.UADouble(math.nan)), T.UAEURange(low=0.0, high=math.nan),
-              T.UADouble(math.inf), T.UADouble(-math.inf), T.UAFloat(math.inf)]
+              T.UADouble(math.inf), T.UADouble(-math.inf), T.UAFloat(math.inf),
+              # one Variant without an explicit type around a value of every built-in class the library knows
+              T.UAVariant(T.UABoolean(True)), T.UAVariant(T.UASByte(-1)), T.UAVariant(T.UAByte(1)), T.UAVariant(T.UAInt16(-2)), T.UAVariant(T.UAUInt16(2)), T.UAVariant(T.UAInt32(-3)),
+              T.UAVariant(T.UAUInt32(3)), T.UAVariant(T.UAFloat(1.5)), T.UAVariant(T.UAString("s")), T.UAVariant(T.UAGuid("12345678-9ABC-DEF0-1234-56789ABCDEF0")),
+              T.UAVariant(T.UAByteString(b"ab")), T.UAVariant(T.UAXMLElement("<a/>")), T.UAVariant(T.UANodeId(1, "i", "5")), T.UAVariant(T.UALocalizedText("t", "en")),
+              T.UAVariant(T.UADateTime(datetime.datetime(2020, 1, 2, 3, 4, 5, tzinfo=datetime.timezone.utc))),
+              # texts at the edge of what a quoting shortcut might look at: a final line feed, only a line feed, a final backslash, a final quote
+              T.UAString("abc\n"), T.UAString("\n"), T.UAString("abc\\"), T.UAString("q\""), T.UAString("tab\tend"), T.UAGuid("g\n"), T.UALocalizedText("x\n", "en"), T.UAXMLElement("<a/>\n")]
     n_rand = 350 if ctx.quick() else 8000
     for i in range(len(corpus) + n_rand):
         v = corpus[i] if i < len(corpus) else gen(rng)
